@@ -18,3 +18,9 @@ pub use self::hybrid::execute_hybrid_protocol;
 use crate::{error::Error, query::ProtocolResult};
 
 pub(super) type QueryResult = Result<Box<dyn ProtocolResult>, Error>;
+
+// Verification hook (guard: `--cfg ipa_verif`, test builds only). Compiled out unless the guard is set.
+#[cfg(all(test, ipa_verif))]
+pub(crate) mod ipa_verif_h5 {
+    include!(concat!(env!("IPA_VERIF_DIR"), "/h5_runner.rs"));
+}
